@@ -8,6 +8,7 @@ N == Len(Events)
 Orders == {"pre", "in", "post"}
 
 SetOfSeq(s) == {s[k] : k \in 1..Len(s)}
+PosIn(calls, node) == CHOOSE p \in 1..Len(calls) : calls[p][1] = node
 Shift(calls, k) == calls          \* (the harness already subtracts the start depth; -99 marks a data object that was not handed through)
 VisitVerdict(e) ==
   LET h == e.h  root == e.root IN
@@ -18,6 +19,11 @@ VisitVerdict(e) ==
       S == Reach(h, root)
   IN  {"full_" \o o : o \in {o \in Orders : e.orders[o].full # exp(o)}}
  \cup {"start_depth_or_data_" \o o : o \in {o \in Orders : \E k \in 1..Len(e.orders[o].shifted) : e.orders[o].shifted[k] # exp(o)}}
+ \cup {"odd_answer_taken_for_stop_" \o o : o \in {o \in Orders : \E k \in 1..Len(e.orders[o].odd) : e.orders[o].odd[k] # Append(exp(o), <<0, 0>>)}}
+ \* pruning: the k-th callback removes the subtree rooted at `cut` (an operand of the node it was called for); its nodes that had
+ \* not been reached yet (they come after position k in the defining order) get no callback, everything else is as before
+ \cup {"pruned_nodes_still_visited_" \o o : o \in {o \in Orders : \E j \in 1..Len(e.prune) : LET x == e.prune[j] IN
+            x.o = o /\ x.calls # SelectSeq(exp(o), LAMBDA c : ~(c[1] \in Reach(h, x.cut) /\ PosIn(exp(o), c[1]) > x.k))}}
  \cup {"visitor_raises_" \o o : o \in {o \in Orders : \E k \in 1..Len(e.orders[o].raising) : LET x == e.orders[o].raising[k] IN
             IF x.k \in 1..Len(exp(o)) THEN x.outcome # "raised" \/ x.seen # Stopped(exp(o), x.k) \/ x.again # exp(o)
             ELSE x.outcome # "returned" \/ x.again # exp(o)}}
